@@ -3,12 +3,14 @@
  * pooled block is its own exact-size malloc block).
  *
  * case % 3 == 0: list.h    1: slist.h    2: que
+ * one case in 41 (quick) / 1201 (thorough): a LARGE case (thousands .. 65537 and more nodes/elements), see large_case()
  */
 #define VF_PROP "C05"
 #include "vf_common.h"
 #include "a/list.h"
 #include "a/slist.h"
 #include "a/que.h"
+#include <limits.h>
 
 #define NN 20 /* nodes per history (list / slist) */
 
@@ -649,10 +651,37 @@ static qmodel Q[2];
 static size_t q_siz_cb;
 static uint32_t qserial;
 
+/* The documented comparator contract is the SIGN of the result only. Every queue case picks one result style (logged):
+ * 0: -1/0/+1   1: the key difference   2: INT_MIN/0/INT_MAX   3: magnitudes varying with the operands */
+static int cmp_style;
+static char const *const cmp_style_name[] = {"-1/0/+1", "key difference", "INT_MIN/0/INT_MAX", "varying magnitudes -2-(d%5) / 2+(d%7)"};
+static int cmp_result(int64_t a, int64_t b)
+{
+    int64_t d = a - b;
+    if (d == 0) { return 0; }
+    switch (cmp_style)
+    {
+    case 1: return d < INT_MIN ? INT_MIN : d > INT_MAX ? INT_MAX : (int)d;
+    case 2: return d < 0 ? INT_MIN : INT_MAX;
+    case 3: return d < 0 ? -2 - (int)((-d) % 5) : 2 + (int)(d % 7);
+    default: return d < 0 ? -1 : 1;
+    }
+}
+static void cmp_pick_style(vf_rng *r)
+{
+    cmp_style = (int)vf_below(r, 4);
+    switch (cmp_style)
+    {
+    case 0: VF_COUNT("comparator-returns-minus-one-zero-plus-one"); break;
+    case 1: VF_COUNT("comparator-returns-key-difference"); break;
+    case 2: VF_COUNT("comparator-returns-int-min-int-max"); break;
+    default: VF_COUNT("comparator-returns-varying-magnitudes"); break;
+    }
+    vf_log("comparator result style: %s", cmp_style_name[cmp_style]);
+}
 static int q_cmp(void const *l, void const *r)
 {
-    unsigned a = *(unsigned char const *)l, b = *(unsigned char const *)r;
-    return (a > b) - (a < b);
+    return cmp_result(*(unsigned char const *)l, *(unsigned char const *)r);
 }
 static void q_dtor(void *p) { (void)p; }
 
@@ -754,6 +783,7 @@ static void que_case(uint64_t c, vf_rng *r)
     int nops = 40 + (int)vf_below(r, 70), alive = 1;
     size_t siz = sizes[vf_below(r, 5)];
     fam = "que";
+    cmp_pick_style(r);
     qserial = (uint32_t)(c * 1000);
     for (int k = 0; k < 2; ++k)
     {
@@ -994,9 +1024,1686 @@ static void que_case(uint64_t c, vf_rng *r)
     }
 }
 
+/* ===================================================================== LARGE-SIZE / LONG-HISTORY workloads
+ * One case in 41 (quick) / 1201 (thorough) drives one container family to thousands .. 65537 (thorough: up to ~200000)
+ * nodes/elements. Each large case keeps its own sequence model (a double-ended array of {address, id, key}) and
+ * compares the COMPLETE ring with it (every node, both directions / every payload byte) at checkpoints placed at
+ * every n with |n - 2^k| <= 2 while the container grows or shrinks, and after every structural operation performed
+ * at large size. Bulk phases log one line per operation but rewind the journal to the phase header, so the journal
+ * always holds the phase description and the operation in flight.
+ * Violation keys: "<family>_<api>/<clause>/large".
+ */
+#define LFAIL(clause, ...)                                                   \
+    do {                                                                     \
+        char key_[128];                                                      \
+        snprintf(key_, sizeof(key_), "%s_%s/%s/large", fam, opname, clause); \
+        vf_viol(key_, __VA_ARGS__);                                          \
+        ok = 0;                                                              \
+    } while (0)
+
+typedef struct
+{
+    void *addr; /* queue: payload address while enqueued */
+    uint32_t id, key;
+} lge;
+typedef struct
+{
+    lge *base;
+    size_t cap, off, n;
+} lseq;
+#define LS(s, i) ((s)->base[(s)->off + (i)])
+
+static void ls_init(lseq *s, size_t cap)
+{
+    s->base = (lge *)malloc(cap * sizeof(lge));
+    if (!s->base) { fprintf(stderr, "vf: out of memory (large model)\n"); exit(2); }
+    s->cap = cap;
+    s->off = cap / 2;
+    s->n = 0;
+}
+static void ls_free(lseq *s)
+{
+    free(s->base);
+    s->base = NULL;
+}
+static void ls_clear(lseq *s)
+{
+    s->n = 0;
+    s->off = s->cap / 2;
+}
+/* open a hole of cnt entries at position pos */
+static void ls_open(lseq *s, size_t pos, size_t cnt)
+{
+    size_t front = s->off, back = s->cap - s->off - s->n;
+    int use_front = pos <= s->n - pos;
+    if (use_front ? front < cnt : back < cnt)
+    {
+        /* no room on the cheap side: re-centre (amortised over the next (cap - n) / 2 insertions at that end) */
+        size_t noff;
+        if (s->cap < s->n + 2 * cnt + 2) { fprintf(stderr, "vf: large model capacity exceeded\n"); exit(2); }
+        noff = (s->cap - s->n) / 2;
+        memmove(s->base + noff, s->base + s->off, s->n * sizeof(lge));
+        s->off = noff;
+    }
+    if (use_front)
+    {
+        memmove(s->base + s->off - cnt, s->base + s->off, pos * sizeof(lge));
+        s->off -= cnt;
+    }
+    else
+    {
+        memmove(s->base + s->off + pos + cnt, s->base + s->off + pos, (s->n - pos) * sizeof(lge));
+    }
+    s->n += cnt;
+}
+static void ls_close(lseq *s, size_t pos, size_t cnt)
+{
+    if (pos <= s->n - pos - cnt)
+    {
+        memmove(s->base + s->off + cnt, s->base + s->off, pos * sizeof(lge));
+        s->off += cnt;
+    }
+    else
+    {
+        memmove(s->base + s->off + pos, s->base + s->off + pos + cnt, (s->n - pos - cnt) * sizeof(lge));
+    }
+    s->n -= cnt;
+    if (!s->n) { s->off = s->cap / 2; }
+}
+static void ls_insert(lseq *s, size_t pos, lge e)
+{
+    ls_open(s, pos, 1);
+    LS(s, pos) = e;
+}
+static void ls_insert_n(lseq *s, size_t pos, lge const *src, size_t cnt)
+{
+    if (!cnt) { return; }
+    ls_open(s, pos, cnt);
+    memcpy(&LS(s, pos), src, cnt * sizeof(lge));
+}
+static void ls_remove_n(lseq *s, size_t pos, size_t cnt, lge *out)
+{
+    if (!cnt) { return; }
+    if (out) { memcpy(out, &LS(s, pos), cnt * sizeof(lge)); }
+    ls_close(s, pos, cnt);
+}
+static lge *lg_tmp, *lg_tmp2; /* scratch, capacity = all nodes of the case */
+
+static int lg_near_pow2(size_t n)
+{
+    for (size_t p = 1; p; p <<= 1)
+    {
+        size_t d = n > p ? n - p : p - n;
+        if (d <= 2) { return 1; }
+        if (p > n) { break; }
+    }
+    return 0;
+}
+static int lg_log2(size_t n)
+{
+    int k = 0;
+    while (n > 1) { n >>= 1; ++k; }
+    return k;
+}
+/* a position in [0, n), n > 0: ends, middle, 2^k-1 / 2^k / 2^k+1, random */
+static size_t lg_pos(vf_rng *r, size_t n, int *cls)
+{
+    int c = (int)vf_below(r, 8);
+    size_t p;
+    *cls = c > 5 ? 6 : c == 4 ? 3 : c;
+    switch (c)
+    {
+    case 0: return 0;
+    case 1: return n - 1;
+    case 2: return n / 2;
+    case 3: case 4:
+        p = ((size_t)1 << vf_below(r, 18)) + (size_t)vf_below(r, 3);
+        p = p ? p - 1 : 0;
+        return p < n ? p : n - 1 - (size_t)vf_below(r, n < 3 ? n : 3);
+    case 5: return n > 1 ? n - 2 : 0;
+    default: return (size_t)vf_below(r, n);
+    }
+}
+/* a length in [1, n], n > 0: 1, 2, whole, whole-1, half, third, 2^k +- 1, random */
+static size_t lg_len(vf_rng *r, size_t n)
+{
+    size_t l;
+    switch ((int)vf_below(r, 9))
+    {
+    case 0: l = 1; break;
+    case 1: l = 2; break;
+    case 2: l = n; break;
+    case 3: l = n - 1; break;
+    case 4: l = n / 2; break;
+    case 5: l = n / 3; break;
+    case 6: case 7:
+        l = ((size_t)1 << vf_below(r, 18)) + (size_t)vf_below(r, 3);
+        l = l > 1 ? l - 1 : 1;
+        break;
+    default: l = 1 + (size_t)vf_below(r, n); break;
+    }
+    if (l < 1) { l = 1; }
+    if (l > n) { l = n; }
+    return l;
+}
+/* a repetition count for rotations on a ring of n: 1, 2, n-1, n, n+1, 2^k +- 1, random */
+static size_t lg_reps(vf_rng *r, size_t n)
+{
+    switch ((int)vf_below(r, 7))
+    {
+    case 0: return 1;
+    case 1: return 2;
+    case 2: return n ? n - 1 : 1;
+    case 3: return n;
+    case 4: return n + 1;
+    case 5: return ((size_t)1 << vf_below(r, 17)) + (size_t)vf_below(r, 3) - 1;
+    default: return 1 + (size_t)vf_below(r, n + 2);
+    }
+}
+/* target sizes: slot 0..11; odd rounds of the thorough tier use the larger variants */
+static size_t lg_target(unsigned slot, int big, vf_rng *r)
+{
+    switch (slot)
+    {
+    case 0: return 4097;
+    case 1: return 65537;
+    case 2: return 65536;
+    case 3: return 1023;
+    case 4: return (size_t)vf_range(r, 300, 5000);
+    case 5: return 65535;
+    case 6: return big ? 131073 : 16385;
+    case 7: return big ? 131072 : 32767;
+    case 8: return big ? (size_t)vf_range(r, 70000, 200000) : (size_t)vf_range(r, 40000, 70000);
+    case 9: return 257;
+    case 10: return ((size_t)1 << vf_range(r, 8, 15)) + (size_t)vf_below(r, 3) - 1;
+    default: return (size_t)vf_range(r, 5000, 40000);
+    }
+}
+
+/* --------------------------------------------------------------------- large: list.h */
+static lnode **GL;
+static size_t GLn;
+static uint32_t *GLfree;
+static size_t GLnfree;
+static a_list *GH[2];
+static lseq GS[2];
+
+static int ll_id(a_list const *p)
+{
+    uint32_t id;
+    if (p == GH[0] || p == GH[1]) { return -1; }
+    id = (uint32_t)((lnode const *)(void const *)p)->id;
+    return id < GLn && &GL[id]->n == p ? (int)id : -1;
+}
+#define LLN(k, i) (&GL[LS(&GS[k], i).id]->n)
+static a_list *ll_member(int k, long pos) { return pos < 0 ? GH[k] : LLN(k, (size_t)pos); }
+
+static int ll_check(void)
+{
+    int ok = 1;
+    VF_COUNT("large-list-rings-walked");
+    for (int k = 0; k < 2; ++k)
+    {
+        a_list *h = GH[k], *it;
+        lseq *s = &GS[k];
+        size_t n = 0;
+        for (it = h->next; it != h; it = it->next)
+        {
+            int id = ll_id(it);
+            if (id < 0) { LFAIL("foreign-node-in-ring", "list %d forward step %zu reaches %p which is neither a pool node nor this head", k, n, (void *)it); return 0; }
+            if (n >= s->n) { LFAIL("forward-walk-longer-than-model", "list %d: more than %zu nodes (or ring not closed on its head)", k, s->n); return 0; }
+            if ((uint32_t)id != LS(s, n).id) { LFAIL("forward-sequence", "list %d position %zu of %zu: node %d, model %u", k, n, s->n, id, LS(s, n).id); return 0; }
+            if (it->next->prev != it) { LFAIL("next-prev-inconsistent", "list %d node %d at %zu: next->prev != node", k, id, n); return 0; }
+            if (it->prev->next != it) { LFAIL("prev-next-inconsistent", "list %d node %d at %zu: prev->next != node", k, id, n); return 0; }
+            ++n;
+        }
+        if (n != s->n) { LFAIL("forward-walk-shorter-than-model", "list %d: %zu nodes, model %zu", k, n, s->n); return 0; }
+        if (h->next->prev != h || h->prev->next != h) { LFAIL("head-links-inconsistent", "list %d head", k); return 0; }
+        n = 0;
+        for (it = h->prev; it != h; it = it->prev)
+        {
+            int id = ll_id(it);
+            if (id < 0 || n >= s->n || (uint32_t)id != LS(s, s->n - 1 - n).id) { LFAIL("backward-sequence", "list %d backward position %zu of %zu", k, n, s->n); return 0; }
+            ++n;
+        }
+        if (n != s->n) { LFAIL("backward-walk-length", "list %d: %zu nodes backward, model %zu", k, n, s->n); return 0; }
+        VF_ADD("large-list-nodes-compared", 2 * n);
+    }
+    ++vf.evals;
+    return ok;
+}
+/* a detached chain first..last must be internally linked like the model section */
+static int ll_chain_check(lge const *sec, size_t cnt)
+{
+    int ok = 1;
+    VF_COUNT("large-list-detached-chain-walked");
+    for (size_t i = 0; i + 1 < cnt; ++i)
+    {
+        a_list *a = &GL[sec[i].id]->n, *b = &GL[sec[i + 1].id]->n;
+        if (a->next != b || b->prev != a) { LFAIL("detached-chain-links", "chain position %zu of %zu: interior links changed", i, cnt); return 0; }
+    }
+    return ok;
+}
+static lge ll_take_free(vf_rng *r)
+{
+    lge e;
+    size_t i = (size_t)vf_below(r, GLnfree);
+    e.addr = NULL;
+    e.key = 0;
+    e.id = GLfree[i];
+    GLfree[i] = GLfree[--GLnfree];
+    return e;
+}
+static void ll_give_free(uint32_t id)
+{
+    a_list_init(&GL[id]->n);
+    GLfree[GLnfree++] = id;
+}
+/* one single-node addition at ring position pos (-1 = head) by variant v: 0 add_next 1 add_prev 2 add_node */
+static void ll_add1(int k, long pos, int v, lge e)
+{
+    lseq *s = &GS[k];
+    a_list *ctx = ll_member(k, pos), *node = &GL[e.id]->n;
+    if (v == 0) { opname = "add_next"; a_list_add_next(ctx, node); ls_insert(s, (size_t)(pos + 1), e); }
+    else if (v == 1) { opname = "add_prev"; a_list_add_prev(ctx, node); ls_insert(s, pos < 0 ? s->n : (size_t)pos, e); }
+    else { opname = "add_node"; a_list_add_node(ctx->next, ctx, node); ls_insert(s, (size_t)(pos + 1), e); }
+}
+
+static void list_large(uint64_t c, vf_rng *r, size_t N)
+{
+    int alive = 1, cls = 0, nops;
+    uint32_t mark;
+    fam = "list";
+    GLn = N;
+    GL = (lnode **)malloc(N * sizeof(*GL));
+    GLfree = (uint32_t *)malloc(N * sizeof(*GLfree));
+    lg_tmp = (lge *)malloc(N * sizeof(lge));
+    lg_tmp2 = (lge *)malloc(N * sizeof(lge));
+    for (size_t i = 0; i < N; ++i)
+    {
+        GL[i] = (lnode *)malloc(sizeof(lnode));
+        GL[i]->id = (int)i;
+        a_list_init(&GL[i]->n);
+        GLfree[i] = (uint32_t)(N - 1 - i);
+    }
+    GLnfree = N;
+    for (int k = 0; k < 2; ++k)
+    {
+        GH[k] = (a_list *)malloc(sizeof(a_list));
+        a_list_ctor(GH[k]);
+        ls_init(&GS[k], 3 * N + 64);
+    }
+    nops = 30 + (int)vf_below(r, 30);
+    if (vf_want_sample())
+    {
+        vf_sample("large list history %" PRIu64 ": ring grown node by node to %zu nodes (add_prev/add_next/add_node, full forward+backward walk at every n within 2 of a power of two), then %d structural operations at that size (del_+add_ of long sections, set_, mov_next/mov_prev of whole rings, rot xR, swap_ of long sections, swap_node, single add/del/set_node at positions 0, 2^k+-1, n-1), both rings walked completely after each", c, N, nops);
+    }
+    vf_log("large list: grow ring 0 to %zu nodes (each node its own malloc block)", N);
+    mark = vf_log_mark();
+    while (GS[0].n < N && alive)
+    {
+        size_t n = GS[0].n;
+        unsigned x = (unsigned)vf_below(r, 512);
+        lge e;
+        e.addr = NULL;
+        e.key = 0;
+        e.id = GLfree[--GLnfree];
+        vf_log_rewind(mark);
+        if (n && (x < 2 || (x < 24 && n < 3000)))
+        {
+            long pos = (long)lg_pos(r, n, &cls);
+            int v = (int)vf_below(r, 3);
+            vf_log("list add variant %d at ring position %ld of %zu, node %u", v, pos, n, e.id);
+            ll_add1(0, pos, v, e);
+        }
+        else if (x < 440)
+        {
+            vf_log("list add_prev(head) node %u (num %zu)", e.id, n);
+            ll_add1(0, -1, 1, e);
+        }
+        else if (x < 490)
+        {
+            vf_log("list add_next(head) node %u (num %zu)", e.id, n);
+            ll_add1(0, -1, 0, e);
+        }
+        else
+        {
+            vf_log("list add_node(head, last) node %u (num %zu)", e.id, n);
+            ll_add1(0, n ? (long)n - 1 : -1, 2, e);
+        }
+        if (lg_near_pow2(n + 1) || n + 1 == N)
+        {
+            VF_COUNT("large-list-growth-checkpoints");
+            cell3("large-grow", lg_log2(n + 1), 0, 0);
+            alive = ll_check();
+        }
+    }
+    vf_log_rewind(mark);
+    vf_log("large list: ring 0 holds %zu nodes; structural operations follow", GS[0].n);
+    for (int i = 0; i < nops && alive; ++i)
+    {
+        int op = (int)vf_below(r, 16), k = (int)vf_below(r, 2), ok = 1;
+        lseq *s = &GS[k];
+        if (!s->n && GS[1 - k].n) { k = 1 - k; s = &GS[k]; }
+        switch (op)
+        {
+        case 0: case 1: case 2:
+        {
+            /* del_ of a long section, then add_ of the detached chain into either ring */
+            size_t len, a, n2;
+            long at;
+            int k2 = (int)vf_below(r, 2);
+            if (!s->n) { break; }
+            len = op == 2 ? (s->n + 1) / 2 : lg_len(r, s->n);
+            a = vf_chance(r, 1, 3) ? 0 : vf_chance(r, 1, 2) ? s->n - len : (size_t)vf_below(r, s->n - len + 1);
+            opname = "del_";
+            vf_log("list del_(section [%zu..%zu] of list %d holding %zu)", a, a + len - 1, k, s->n);
+            a_list_del_(LLN(k, a), LLN(k, a + len - 1));
+            cell3("large-del_", posc(a, s->n), lg_log2(len), lg_log2(s->n));
+            ls_remove_n(s, a, len, lg_tmp);
+            VF_COUNT("large-list-section-ops");
+            if (!(alive = ll_chain_check(lg_tmp, len) && ll_check())) { break; }
+            n2 = GS[k2].n;
+            at = (long)vf_below(r, n2 + 1) - 1;
+            if (vf_chance(r, 1, 3)) { at = (long)n2 - 1; }
+            opname = "add_";
+            vf_log("list add_(ctx->next, ctx = ring position %ld of list %d holding %zu, chain of %zu nodes)", at, k2, n2, len);
+            {
+                a_list *ctx = ll_member(k2, at);
+                a_list_add_(ctx->next, ctx, &GL[lg_tmp[0].id]->n, &GL[lg_tmp[len - 1].id]->n);
+            }
+            ls_insert_n(&GS[k2], (size_t)(at + 1), lg_tmp, len);
+            cell3("large-add_", at < 0 ? 9 : posc((size_t)at, n2), lg_log2(len), k == k2);
+            break;
+        }
+        case 3:
+        {
+            /* set_: a section of list k is replaced by a chain cut out of the other list */
+            int o = 1 - k;
+            size_t l1, a1, l2, a2;
+            if (!s->n || !GS[o].n) { break; }
+            l2 = lg_len(r, GS[o].n);
+            a2 = (size_t)vf_below(r, GS[o].n - l2 + 1);
+            l1 = lg_len(r, s->n);
+            a1 = (size_t)vf_below(r, s->n - l1 + 1);
+            opname = "del_";
+            vf_log("list del_(section [%zu..%zu] of list %d holding %zu) to obtain a chain", a2, a2 + l2 - 1, o, GS[o].n);
+            a_list_del_(LLN(o, a2), LLN(o, a2 + l2 - 1));
+            ls_remove_n(&GS[o], a2, l2, lg_tmp);
+            opname = "set_";
+            vf_log("list set_(section [%zu..%zu] of list %d holding %zu replaced by the chain of %zu)", a1, a1 + l1 - 1, k, s->n, l2);
+            a_list_set_(LLN(k, a1), LLN(k, a1 + l1 - 1), &GL[lg_tmp[0].id]->n, &GL[lg_tmp[l2 - 1].id]->n);
+            cell3("large-set_", posc(a1, s->n), lg_log2(l1), lg_log2(l2));
+            ls_remove_n(s, a1, l1, lg_tmp2);
+            ls_insert_n(s, a1, lg_tmp, l2);
+            VF_COUNT("large-list-section-ops");
+            if (!(alive = ll_chain_check(lg_tmp2, l1))) { break; }
+            for (size_t j = 0; j < l1; ++j) { ll_give_free(lg_tmp2[j].id); }
+            break;
+        }
+        case 4: case 5:
+        {
+            int o = 1 - k;
+            size_t n2 = GS[o].n;
+            long pos;
+            if (!n2) { break; }
+            pos = s->n ? (long)lg_pos(r, s->n, &cls) : -1;
+            if (vf_chance(r, 1, 4)) { pos = -1; }
+            opname = op == 4 ? "mov_next" : "mov_prev";
+            vf_log("list %s(ctx ring position %ld of list %d holding %zu, all %zu nodes of list %d)", opname, pos, k, s->n, n2, o);
+            if (op == 4) { a_list_mov_next(ll_member(k, pos), GH[o]); }
+            else { a_list_mov_prev(ll_member(k, pos), GH[o]); }
+            a_list_init(GH[o]);
+            cell3(op == 4 ? "large-mov_next" : "large-mov_prev", pos < 0 ? 9 : posc((size_t)pos, s->n), lg_log2(n2), lg_log2(s->n + 1));
+            ls_remove_n(&GS[o], 0, n2, lg_tmp);
+            ls_insert_n(s, op == 4 ? (size_t)(pos + 1) : (pos < 0 ? s->n : (size_t)pos), lg_tmp, n2);
+            VF_COUNT("large-list-section-ops");
+            break;
+        }
+        case 6: case 7:
+        {
+            size_t reps = lg_reps(r, s->n), m;
+            opname = op == 6 ? "rot_next" : "rot_prev";
+            vf_log("list %s(head of list %d holding %zu) x %zu", opname, k, s->n, reps);
+            for (size_t j = 0; j < reps; ++j)
+            {
+                if (op == 6) { a_list_rot_next(GH[k]); }
+                else { a_list_rot_prev(GH[k]); }
+            }
+            VF_ADD("large-list-rotations", reps);
+            cell3(op == 6 ? "large-rot_next" : "large-rot_prev", lg_log2(s->n + 1), reps > s->n ? 2 : reps == s->n, 0);
+            if (s->n > 1 && (m = reps % s->n) != 0)
+            {
+                if (op == 6) { ls_remove_n(s, s->n - m, m, lg_tmp); ls_insert_n(s, 0, lg_tmp, m); }
+                else { ls_remove_n(s, 0, m, lg_tmp); ls_insert_n(s, s->n, lg_tmp, m); }
+            }
+            break;
+        }
+        case 8: case 9:
+        {
+            /* swap_ of two sections, disjoint and not adjacent */
+            int k2 = op == 8 ? k : 1 - k;
+            lseq *s2 = &GS[k2];
+            size_t a1, l1, a2, l2;
+            if (!s->n || !s2->n) { break; }
+            if (k == k2)
+            {
+                /* [a1, a1+l1) < gap >= 1 < [a2, a2+l2) */
+                size_t n = s->n, g;
+                if (n < 3) { break; }
+                l1 = lg_len(r, n - 2);
+                l2 = lg_len(r, n - 1 - l1);
+                g = 1 + (vf_chance(r, 1, 2) ? 0 : (size_t)vf_below(r, n - l1 - l2));
+                a1 = (size_t)vf_below(r, n - l1 - l2 - g + 1);
+                a2 = a1 + l1 + g;
+            }
+            else
+            {
+                l1 = lg_len(r, s->n);
+                a1 = (size_t)vf_below(r, s->n - l1 + 1);
+                l2 = lg_len(r, s2->n);
+                a2 = (size_t)vf_below(r, s2->n - l2 + 1);
+            }
+            {
+                a_list *h1 = LLN(k, a1), *t1 = LLN(k, a1 + l1 - 1), *h2 = LLN(k2, a2), *t2 = LLN(k2, a2 + l2 - 1);
+                if (t1->next == h2 || t2->next == h1) { VF_COUNT("swap-skipped-adjacent"); break; }
+                opname = "swap_";
+                vf_log("list swap_(section [%zu..%zu] of list %d holding %zu, section [%zu..%zu] of list %d holding %zu)", a1, a1 + l1 - 1, k, s->n, a2, a2 + l2 - 1, k2, s2->n);
+                a_list_swap_(h1, t1, h2, t2);
+            }
+            cell3("large-swap_", k == k2, lg_log2(l1), lg_log2(l2));
+            /* later section first */
+            ls_remove_n(s2, a2, l2, lg_tmp2);
+            ls_remove_n(s, a1, l1, lg_tmp);
+            ls_insert_n(s, a1, lg_tmp2, l2);
+            ls_insert_n(s2, k == k2 ? a2 - l1 + l2 : a2, lg_tmp, l1);
+            VF_COUNT("large-list-section-ops");
+            break;
+        }
+        case 10:
+        {
+            int k2 = (int)vf_below(r, 2);
+            lseq *s2 = &GS[k2];
+            size_t p1, p2;
+            a_list *x, *y;
+            if (!s->n || !s2->n) { break; }
+            p1 = lg_pos(r, s->n, &cls);
+            p2 = lg_pos(r, s2->n, &cls);
+            x = LLN(k, p1);
+            y = LLN(k2, p2);
+            if (x == y || x->next == y || y->next == x) { VF_COUNT("swap-skipped-adjacent"); break; }
+            opname = "swap_node";
+            vf_log("list swap_node(position %zu of list %d holding %zu, position %zu of list %d holding %zu)", p1, k, s->n, p2, k2, s2->n);
+            a_list_swap_node(x, y);
+            {
+                lge t = LS(s, p1);
+                LS(s, p1) = LS(s2, p2);
+                LS(s2, p2) = t;
+            }
+            cell3("large-swap_node", k == k2, posc(p1, s->n), posc(p2, s2->n));
+            break;
+        }
+        case 11:
+        {
+            long pos;
+            int v = (int)vf_below(r, 3);
+            if (!GLnfree) { break; }
+            pos = s->n ? (long)lg_pos(r, s->n, &cls) : -1;
+            if (vf_chance(r, 1, 6)) { pos = -1; }
+            vf_log("list add variant %d (0 add_next 1 add_prev 2 add_node) at ring position %ld of list %d holding %zu", v, pos, k, s->n);
+            ll_add1(k, pos, v, ll_take_free(r));
+            cell3("large-add1", v, pos < 0 ? 9 : cls, lg_log2(s->n));
+            break;
+        }
+        case 12:
+        {
+            size_t pos;
+            int v = (int)vf_below(r, 3);
+            a_list *gone;
+            if (!s->n) { break; }
+            pos = lg_pos(r, s->n, &cls);
+            gone = LLN(k, pos);
+            opname = v == 0 ? "del_node" : v == 1 ? "del_next" : "del_prev";
+            vf_log("list %s removing position %zu of list %d holding %zu", opname, pos, k, s->n);
+            if (v == 0) { a_list_del_node(gone); }
+            else if (v == 1) { a_list_del_next(ll_member(k, (long)pos - 1)); }
+            else { a_list_del_prev(pos + 1 < s->n ? LLN(k, pos + 1) : GH[k]); }
+            cell3("large-del1", v, cls, lg_log2(s->n));
+            {
+                uint32_t id = LS(s, pos).id;
+                ls_remove_n(s, pos, 1, NULL);
+                ll_give_free(id);
+            }
+            break;
+        }
+        case 13:
+        {
+            size_t pos;
+            lge e;
+            uint32_t old;
+            if (!s->n || !GLnfree) { break; }
+            pos = lg_pos(r, s->n, &cls);
+            e = ll_take_free(r);
+            old = LS(s, pos).id;
+            opname = "set_node";
+            vf_log("list set_node(position %zu of list %d holding %zu replaced by node %u)", pos, k, s->n, e.id);
+            a_list_set_node(&GL[old]->n, &GL[e.id]->n);
+            LS(s, pos) = e;
+            ll_give_free(old);
+            cell3("large-set_node", cls, lg_log2(s->n), 0);
+            break;
+        }
+        case 14:
+        {
+            /* all detached nodes back, one by one at alternating ends (one walk at the end) */
+            size_t cnt = GLnfree;
+            if (!cnt) { break; }
+            vf_log("list %zu detached nodes re-added to list %d holding %zu by add_prev(head)/add_next(head)", cnt, k, s->n);
+            while (GLnfree)
+            {
+                lge e = ll_take_free(r);
+                ll_add1(k, -1, GLnfree & 1 ? 1 : 0, e);
+            }
+            break;
+        }
+        default:
+        {
+            size_t n = 0;
+            opname = "foreach";
+            vf_log("list foreach/forsafe over list %d holding %zu", k, s->n);
+            VF_COUNT("large-list-foreach-macros");
+            a_list_foreach_next(it, GH[k])
+            {
+                if (n >= s->n || ll_id(it) != (int)LS(s, n).id) { LFAIL("foreach_next", "position %zu", n); break; }
+                ++n;
+            }
+            if (ok && n != s->n) { LFAIL("foreach_next", "visited %zu of %zu", n, s->n); }
+            n = 0;
+            a_list_forsafe_prev(it, at, GH[k])
+            {
+                if (n >= s->n || ll_id(it) != (int)LS(s, s->n - 1 - n).id) { LFAIL("forsafe_prev", "position %zu", n); break; }
+                ++n;
+            }
+            if (ok && n != s->n) { LFAIL("forsafe_prev", "visited %zu of %zu", n, s->n); }
+            break;
+        }
+        }
+        (void)ok;
+        if (alive)
+        {
+            VF_COUNT("large-list-structural-ops-judged");
+            alive = ll_check();
+        }
+    }
+    for (size_t i = 0; i < N; ++i) { free(GL[i]); }
+    free(GL);
+    free(GLfree);
+    free(lg_tmp);
+    free(lg_tmp2);
+    for (int k = 0; k < 2; ++k)
+    {
+        free(GH[k]);
+        ls_free(&GS[k]);
+    }
+}
+
+/* --------------------------------------------------------------------- large: slist.h */
+static snode **GN;
+static size_t GNn;
+static uint32_t *GNfree;
+static size_t GNnfree;
+static a_slist *GSL[2];
+static lseq GT[2];
+
+static int sl_id(a_slist_node const *p)
+{
+    uint32_t id;
+    if (p == &GSL[0]->head || p == &GSL[1]->head) { return -1; }
+    id = (uint32_t)((snode const *)(void const *)p)->id;
+    return id < GNn && &GN[id]->n == p ? (int)id : -1;
+}
+#define SLN(k, i) (&GN[LS(&GT[k], i).id]->n)
+static a_slist_node *sl_member(int k, long pos) { return pos < 0 ? &GSL[k]->head : SLN(k, (size_t)pos); }
+
+static int sl_check(void)
+{
+    int ok = 1;
+    VF_COUNT("large-slist-walked");
+    for (int k = 0; k < 2; ++k)
+    {
+        a_slist_node *it, *last = &GSL[k]->head;
+        lseq *s = &GT[k];
+        size_t n = 0;
+        for (it = GSL[k]->head.next; it; it = it->next)
+        {
+            int id = sl_id(it);
+            if (id < 0) { LFAIL("foreign-node", "slist %d step %zu reaches %p", k, n, (void *)it); return 0; }
+            if (n >= s->n) { LFAIL("walk-longer-than-model", "slist %d: more than %zu nodes", k, s->n); return 0; }
+            if ((uint32_t)id != LS(s, n).id) { LFAIL("sequence", "slist %d position %zu of %zu: node %d, model %u", k, n, s->n, id, LS(s, n).id); return 0; }
+            last = it;
+            ++n;
+        }
+        if (n != s->n) { LFAIL("walk-shorter-than-model", "slist %d: %zu nodes, model %zu", k, n, s->n); return 0; }
+        VF_COUNT("large-slist-tail-designates-last-node");
+        if (GSL[k]->tail != last) { LFAIL("tail-not-last-node", "slist %d: tail %p, last node %p (%zu nodes)", k, (void *)GSL[k]->tail, (void *)last, n); return 0; }
+        VF_ADD("large-slist-nodes-compared", n);
+    }
+    ++vf.evals;
+    return ok;
+}
+static lge sl_take_free(void)
+{
+    lge e;
+    e.addr = NULL;
+    e.key = 0;
+    e.id = GNfree[--GNnfree];
+    return e;
+}
+static void sl_give_free(uint32_t id)
+{
+    GN[id]->n.next = NULL;
+    GNfree[GNnfree++] = id;
+}
+
+static void slist_large(uint64_t c, vf_rng *r, size_t N)
+{
+    int alive = 1, cls = 0, nops;
+    uint32_t mark;
+    fam = "slist";
+    GNn = N;
+    GN = (snode **)malloc(N * sizeof(*GN));
+    GNfree = (uint32_t *)malloc(N * sizeof(*GNfree));
+    lg_tmp = (lge *)malloc(N * sizeof(lge));
+    for (size_t i = 0; i < N; ++i)
+    {
+        GN[i] = (snode *)malloc(sizeof(snode));
+        GN[i]->id = (int)i;
+        GN[i]->n.next = NULL;
+        GNfree[i] = (uint32_t)(N - 1 - i);
+    }
+    GNnfree = N;
+    for (int k = 0; k < 2; ++k)
+    {
+        GSL[k] = (a_slist *)malloc(sizeof(a_slist));
+        a_slist_ctor(GSL[k]);
+        ls_init(&GT[k], 3 * N + 64);
+    }
+    nops = 30 + (int)vf_below(r, 30);
+    if (vf_want_sample())
+    {
+        vf_sample("large slist history %" PRIu64 ": list grown node by node to %zu nodes (add_tail/add_head/add after the last and at inner positions; full walk + tail check at every n within 2 of a power of two), then %d operations at that size (add/del at positions 0, 2^k+-1, last; mov of a whole long list into the head/middle/tail of the other; rot xR; bulk transfer of n/3 nodes), both lists walked completely after each", c, N, nops);
+    }
+    vf_log("large slist: grow list 0 to %zu nodes (each node its own malloc block)", N);
+    mark = vf_log_mark();
+    while (GT[0].n < N && alive)
+    {
+        lseq *s = &GT[0];
+        size_t n = s->n;
+        unsigned x = (unsigned)vf_below(r, 512);
+        lge e = sl_take_free();
+        vf_log_rewind(mark);
+        if (n && (x < 2 || (x < 24 && n < 3000)))
+        {
+            long pos = (long)lg_pos(r, n, &cls) - 1;
+            opname = "add";
+            vf_log("slist add(list 0, prev = position %ld of %zu, node %u)", pos, n, e.id);
+            a_slist_add(GSL[0], sl_member(0, pos), &GN[e.id]->n);
+            ls_insert(s, (size_t)(pos + 1), e);
+        }
+        else if (x < 400)
+        {
+            opname = "add_tail";
+            vf_log("slist add_tail(list 0, node %u) (num %zu)", e.id, n);
+            a_slist_add_tail(GSL[0], &GN[e.id]->n);
+            ls_insert(s, n, e);
+        }
+        else if (x < 450)
+        {
+            opname = "add";
+            vf_log("slist add(list 0, prev = last node, node %u) (num %zu)", e.id, n);
+            a_slist_add(GSL[0], sl_member(0, (long)n - 1), &GN[e.id]->n);
+            ls_insert(s, n, e);
+        }
+        else
+        {
+            opname = "add_head";
+            vf_log("slist add_head(list 0, node %u) (num %zu)", e.id, n);
+            a_slist_add_head(GSL[0], &GN[e.id]->n);
+            ls_insert(s, 0, e);
+        }
+        if (lg_near_pow2(n + 1) || n + 1 == N)
+        {
+            VF_COUNT("large-slist-growth-checkpoints");
+            cell3("large-grow", lg_log2(n + 1), 0, 0);
+            alive = sl_check();
+        }
+    }
+    vf_log_rewind(mark);
+    vf_log("large slist: list 0 holds %zu nodes; operations at that size follow", GT[0].n);
+    for (int i = 0; i < nops && alive; ++i)
+    {
+        int op = (int)vf_below(r, 12), k = (int)vf_below(r, 2), ok = 1;
+        lseq *s = &GT[k];
+        if (!s->n && GT[1 - k].n && op != 6 && op != 7) { k = 1 - k; s = &GT[k]; }
+        switch (op)
+        {
+        case 0: case 1:
+        {
+            long pos;
+            lge e;
+            if (!GNnfree) { break; }
+            pos = s->n ? (long)lg_pos(r, s->n, &cls) - (long)vf_below(r, 2) : -1;
+            e = sl_take_free();
+            opname = "add";
+            vf_log("slist add(list %d holding %zu, prev = position %ld, node %u)", k, s->n, pos, e.id);
+            a_slist_add(GSL[k], sl_member(k, pos), &GN[e.id]->n);
+            cell3("large-add", pos < 0 ? 9 : cls, lg_log2(s->n + 1), pos + 1 == (long)s->n);
+            ls_insert(s, (size_t)(pos + 1), e);
+            break;
+        }
+        case 2:
+        {
+            lge e;
+            int head = vf_chance(r, 1, 2);
+            if (!GNnfree) { break; }
+            e = sl_take_free();
+            opname = head ? "add_head" : "add_tail";
+            vf_log("slist %s(list %d holding %zu, node %u)", opname, k, s->n, e.id);
+            if (head) { a_slist_add_head(GSL[k], &GN[e.id]->n); }
+            else { a_slist_add_tail(GSL[k], &GN[e.id]->n); }
+            cell3(head ? "large-add_head" : "large-add_tail", lg_log2(s->n + 1), 0, 0);
+            ls_insert(s, head ? 0 : s->n, e);
+            break;
+        }
+        case 3: case 4:
+        {
+            /* del(prev): removes prev->next, nothing if prev is the last node */
+            long pos = s->n ? (long)lg_pos(r, s->n, &cls) - (long)vf_below(r, 2) : -1;
+            opname = "del";
+            vf_log("slist del(list %d holding %zu, prev = position %ld)", k, s->n, pos);
+            a_slist_del(GSL[k], sl_member(k, pos));
+            cell3("large-del", pos < 0 ? 9 : cls, lg_log2(s->n + 1), pos + 1 == (long)s->n);
+            if ((size_t)(pos + 1) < s->n)
+            {
+                uint32_t id = LS(s, (size_t)(pos + 1)).id;
+                ls_remove_n(s, (size_t)(pos + 1), 1, NULL);
+                sl_give_free(id);
+            }
+            break;
+        }
+        case 5:
+            opname = "del_head";
+            vf_log("slist del_head(list %d holding %zu)", k, s->n);
+            a_slist_del_head(GSL[k]);
+            cell3("large-del_head", lg_log2(s->n + 1), 0, 0);
+            if (s->n)
+            {
+                uint32_t id = LS(s, 0).id;
+                ls_remove_n(s, 0, 1, NULL);
+                sl_give_free(id);
+            }
+            break;
+        case 6: case 7:
+        {
+            /* mov(ctx, to, at): all nodes of list o go after position pos of list k */
+            int o = 1 - k;
+            size_t n2 = GT[o].n;
+            long pos = s->n ? (long)lg_pos(r, s->n, &cls) : -1;
+            if (vf_chance(r, 1, 4)) { pos = -1; }
+            else if (vf_chance(r, 1, 3)) { pos = (long)s->n - 1; }
+            opname = "mov";
+            vf_log("slist mov(all %zu nodes of list %d after position %ld of list %d holding %zu)", n2, o, pos, k, s->n);
+            a_slist_mov(GSL[o], GSL[k], sl_member(k, pos));
+            a_slist_init(GSL[o]);
+            cell3("large-mov", pos < 0 ? 9 : posc((size_t)pos, s->n), lg_log2(n2 + 1), lg_log2(s->n + 1));
+            ls_remove_n(&GT[o], 0, n2, lg_tmp);
+            ls_insert_n(s, (size_t)(pos + 1), lg_tmp, n2);
+            VF_COUNT("large-slist-whole-list-moves");
+            break;
+        }
+        case 8: case 9:
+        {
+            size_t reps = lg_reps(r, s->n), m;
+            opname = "rot";
+            vf_log("slist rot(list %d holding %zu) x %zu", k, s->n, reps);
+            for (size_t j = 0; j < reps; ++j) { a_slist_rot(GSL[k]); }
+            VF_ADD("large-slist-rotations", reps);
+            cell3("large-rot", lg_log2(s->n + 1), reps > s->n ? 2 : reps == s->n, 0);
+            if (s->n > 1 && (m = reps % s->n) != 0)
+            {
+                ls_remove_n(s, 0, m, lg_tmp);
+                ls_insert_n(s, s->n, lg_tmp, m);
+            }
+            break;
+        }
+        case 10:
+        {
+            /* bulk transfer: del_head of list k, add_tail / add_head to the other list, cnt times; one walk at the end */
+            int o = 1 - k, tail = vf_chance(r, 2, 3);
+            size_t cnt;
+            if (!s->n) { break; }
+            cnt = lg_len(r, s->n);
+            vf_log("slist %zu x { del_head(list %d holding %zu); %s(list %d holding %zu) }", cnt, k, s->n, tail ? "add_tail" : "add_head", o, GT[o].n);
+            opname = tail ? "add_tail" : "add_head";
+            for (size_t j = 0; j < cnt; ++j)
+            {
+                lge e = LS(s, 0);
+                a_slist_del_head(GSL[k]);
+                ls_remove_n(s, 0, 1, NULL);
+                if (tail) { a_slist_add_tail(GSL[o], &GN[e.id]->n); ls_insert(&GT[o], GT[o].n, e); }
+                else { a_slist_add_head(GSL[o], &GN[e.id]->n); ls_insert(&GT[o], 0, e); }
+            }
+            VF_ADD("large-slist-bulk-transfers", cnt);
+            cell3("large-transfer", lg_log2(cnt), tail, 0);
+            break;
+        }
+        default:
+        {
+            size_t n = 0;
+            opname = "foreach";
+            vf_log("slist foreach/forsafe over list %d holding %zu", k, s->n);
+            VF_COUNT("large-slist-foreach-macros");
+            a_slist_foreach(it, GSL[k])
+            {
+                if (n >= s->n || sl_id(it) != (int)LS(s, n).id) { LFAIL("foreach", "position %zu", n); break; }
+                ++n;
+            }
+            if (ok && n != s->n) { LFAIL("foreach", "visited %zu of %zu", n, s->n); }
+            n = 0;
+            a_slist_forsafe(it, at, GSL[k])
+            {
+                if (n >= s->n || sl_id(it) != (int)LS(s, n).id) { LFAIL("forsafe", "position %zu", n); break; }
+                ++n;
+            }
+            if (ok && n != s->n) { LFAIL("forsafe", "visited %zu of %zu", n, s->n); }
+            break;
+        }
+        }
+        (void)ok;
+        if (alive)
+        {
+            VF_COUNT("large-slist-ops-judged");
+            alive = sl_check();
+        }
+    }
+    for (size_t i = 0; i < N; ++i) { free(GN[i]); }
+    free(GN);
+    free(GNfree);
+    free(lg_tmp);
+    for (int k = 0; k < 2; ++k)
+    {
+        free(GSL[k]);
+        ls_free(&GT[k]);
+    }
+}
+
+/* --------------------------------------------------------------------- large: que */
+/* which payload addresses are enqueued right now (either queue); verdicts only, never decisions */
+typedef struct
+{
+    uintptr_t key;
+    uint32_t st, ep; /* st: 0 neither, 1 enqueued, 2 seen in a recycling pool at the last check */
+} lg_ent;
+static lg_ent *lg_tab;
+static size_t lg_tabcap, lg_tabused;
+static uint32_t lg_epoch;
+
+static lg_ent *lg_find(void const *p)
+{
+    uintptr_t k = (uintptr_t)p;
+    size_t i = (size_t)vf_hash64(0x51ED, (uint64_t)k) & (lg_tabcap - 1);
+    while (lg_tab[i].key && lg_tab[i].key != k) { i = (i + 1) & (lg_tabcap - 1); }
+    if (!lg_tab[i].key)
+    {
+        lg_tab[i].key = k;
+        lg_tab[i].st = 0;
+        ++lg_tabused;
+    }
+    return &lg_tab[i];
+}
+/* room for `extra` more keys; a rebuild keeps the enqueued and the pooled addresses */
+static void lg_reserve(size_t extra)
+{
+    lg_ent *old = lg_tab;
+    size_t oldcap = lg_tabcap, live = 0, ncap = 4096;
+    if (old && (lg_tabused + extra) * 2 <= lg_tabcap) { return; }
+    for (size_t i = 0; i < oldcap; ++i) { live += old[i].key && old[i].st != 0; }
+    while (ncap < 4 * (live + extra)) { ncap <<= 1; }
+    lg_tab = (lg_ent *)calloc(ncap, sizeof(lg_ent));
+    if (!lg_tab) { fprintf(stderr, "vf: out of memory (address map)\n"); exit(2); }
+    lg_tabcap = ncap;
+    lg_tabused = 0;
+    for (size_t i = 0; i < oldcap; ++i)
+    {
+        if (old[i].key && old[i].st != 0) { lg_find((void const *)old[i].key)->st = old[i].st; }
+    }
+    free(old);
+}
+
+#define LQZMAX 64
+typedef struct
+{
+    a_que *q;
+    size_t siz;
+    lseq s;
+    int by_ctor;
+    /* pool slots [0, low) were verified at the last check and the pool cursor has not dipped below `low` since:
+     * if they still hold the same nodes (shadow copy) they need no new look-up */
+    a_list **shadow;
+    size_t shn, shcap, low;
+} lqm;
+static void lq_touch(lqm *m)
+{
+    if (m->q->cur_ < m->low) { m->low = m->q->cur_; }
+}
+/* forget what is known about the pool of m (its nodes are about to be re-allocated or freed) */
+static void lq_pool_forget(lqm *m);
+static lqm LQ[2];
+static uint32_t lq_serial;
+static size_t lq_cmp_siz;
+static uint64_t lq_dtor_calls;
+static unsigned char *lq_keybuf; /* exact-size block handed to a_que_push_sort */
+
+/* element bytes: sort key in the first 4 bytes (1 byte if the element is shorter), the rest derived from the id */
+static void lq_bytes(unsigned char *out, size_t siz, uint32_t id, uint32_t key)
+{
+    uint64_t w = vf_hash64(0x9E37, id);
+    for (size_t j = 0; j < siz; j += 8)
+    {
+        uint64_t v = w + j * 0x0101010101010101ULL;
+        memcpy(out + j, &v, siz - j < 8 ? siz - j : 8);
+    }
+    if (siz >= 4) { memcpy(out, &key, 4); }
+    else { out[0] = (unsigned char)key; }
+}
+/* payload of an enqueued element against (id, key); the element block is 16 + siz bytes, so every byte read is inside it */
+static inline int lq_same(void const *p, size_t siz, uint32_t id, uint32_t key)
+{
+    unsigned char exp[LQZMAX];
+    unsigned char const *b = (unsigned char const *)p;
+    size_t j = 0;
+    lq_bytes(exp, siz, id, key);
+    for (; j + 8 <= siz; j += 8)
+    {
+        uint64_t x, y;
+        memcpy(&x, b + j, 8);
+        memcpy(&y, exp + j, 8);
+        if (x != y) { return 0; }
+    }
+    for (; j < siz; ++j)
+    {
+        if (b[j] != exp[j]) { return 0; }
+    }
+    return 1;
+}
+static int lq_cmp(void const *l, void const *r)
+{
+    if (lq_cmp_siz >= 4)
+    {
+        uint32_t a, b;
+        memcpy(&a, l, 4);
+        memcpy(&b, r, 4);
+        return cmp_result(a, b);
+    }
+    else { return cmp_result(*(unsigned char const *)l, *(unsigned char const *)r); }
+}
+/* element destructor: the pointer must designate a live element (one byte read under ASan) */
+static void lq_dtor(void *p)
+{
+    ++lq_dtor_calls;
+    (void)*(unsigned char volatile *)p;
+}
+static void lq_pool_forget(lqm *m)
+{
+    for (size_t i = 0; i < m->shn; ++i)
+    {
+        lg_ent *e = lg_find(m->shadow[i] + 1);
+        if (e->st == 2) { e->st = 0; }
+    }
+    m->shn = m->low = 0;
+}
+static uint32_t lq_randkey(vf_rng *r, size_t siz) { return siz >= 4 ? (uint32_t)vf_u64(r) : (uint32_t)vf_below(r, 256); }
+
+/* full: every ring node, payload byte, address, indexed access, pool. light (pool-driven checkpoints of the bulk phases):
+ * element size, count, fore/back and the pool only */
+static int lq_check_(vf_rng *r, int full);
+static int lq_check(vf_rng *r) { return lq_check_(r, 1); }
+static int lq_check_(vf_rng *r, int full)
+{
+    int ok = 1;
+    if (full) { VF_COUNT("large-que-state-compared-with-model"); }
+    else { VF_COUNT("large-que-light-checks-count-ends-pool"); }
+    ++lg_epoch;
+    for (int k = 0; k < 2; ++k)
+    {
+        a_que const *q = LQ[k].q;
+        if (q->cur_ > q->mem_ || (q->cur_ && !q->ptr_)) { LFAIL("pool-cursor-beyond-capacity", "queue %d: pool cursor %zu, pool capacity %zu", k, q->cur_, q->mem_); return 0; }
+    }
+    lg_reserve(LQ[0].q->cur_ + LQ[1].q->cur_ + 2);
+    for (int k = 0; k < 2; ++k)
+    {
+        lqm *m = &LQ[k];
+        lseq *s = &m->s;
+        a_que *q = m->q;
+        a_list *h = &q->head_, *it;
+        size_t n = 0, N = s->n;
+        if (a_que_siz(q) != m->siz) { LFAIL("element-size", "queue %d: size %zu, model %zu", k, a_que_siz(q), m->siz); return 0; }
+        if (a_que_num(q) != N) { LFAIL("count", "queue %d: a_que_num %zu, model %zu", k, a_que_num(q), N); return 0; }
+        for (it = h->next; full && it != h; it = it->next)
+        {
+            lge const *e;
+            if (n >= N) { LFAIL("ring-longer-than-model", "queue %d: ring has more than %zu nodes or is not closed on its own sentinel", k, N); return 0; }
+            e = &LS(s, n);
+            if ((void *)(it + 1) != e->addr) { LFAIL("element-address-changed", "queue %d position %zu of %zu: payload at %p, model %p", k, n, N, (void *)(it + 1), e->addr); return 0; }
+            if (it->next->prev != it || it->prev->next != it) { LFAIL("ring-links-inconsistent", "queue %d position %zu of %zu", k, n, N); return 0; }
+            if (!lq_same(it + 1, m->siz, e->id, e->key)) { LFAIL("contents", "queue %d position %zu of %zu: payload differs (element id %u)", k, n, N, e->id); return 0; }
+            ++n;
+        }
+        if (full && n != N) { LFAIL("ring-shorter-than-model", "queue %d: %zu nodes, model %zu", k, n, N); return 0; }
+        if (h->next->prev != h || h->prev->next != h) { LFAIL("sentinel-links-inconsistent", "queue %d: ring not closed on its own sentinel", k); return 0; }
+        if (full) { VF_ADD("large-que-elements-compared", N); }
+        /* indexed access from both ends: at(0), at(-1) always; at(n-1), at(-n), at(i), at(-i-1), at(n), at(-n-1) all below
+         * 4096 elements, one of them in rotation at every second check above (each walks O(n) nodes) */
+        if (full) { VF_COUNT("large-que-indexed-access"); }
+        if (a_que_fore(q) != (N ? LS(s, 0).addr : NULL)) { LFAIL("fore", "queue %d", k); return 0; }
+        if (a_que_back(q) != (N ? LS(s, N - 1).addr : NULL)) { LFAIL("back", "queue %d", k); return 0; }
+        {
+            unsigned sel = !full ? 0u : N < 4096 ? 63u : (lg_epoch & 1) ? 0u : 1u << ((lg_epoch >> 1) % 6);
+            int cls;
+            size_t i = N ? lg_pos(r, N, &cls) : 0;
+            if (N && full)
+            {
+                if (a_que_at(q, 0) != LS(s, 0).addr) { LFAIL("at-from-front", "queue %d at(0)", k); return 0; }
+                if (a_que_at(q, -1) != LS(s, N - 1).addr) { LFAIL("at-from-back", "queue %d at(-1)", k); return 0; }
+                if ((sel & 1) && a_que_at(q, (a_diff)N - 1) != LS(s, N - 1).addr) { LFAIL("at-from-front", "queue %d at(%zu) of %zu", k, N - 1, N); return 0; }
+                if ((sel & 2) && a_que_at(q, -(a_diff)N) != LS(s, 0).addr) { LFAIL("at-from-back", "queue %d at(-%zu) of %zu", k, N, N); return 0; }
+                if ((sel & 4) && a_que_at(q, (a_diff)i) != LS(s, i).addr) { LFAIL("at-from-front", "queue %d at(%zu) of %zu", k, i, N); return 0; }
+                if ((sel & 8) && a_que_at(q, -(a_diff)i - 1) != LS(s, N - 1 - i).addr) { LFAIL("at-from-back", "queue %d at(-%zu) of %zu", k, i + 1, N); return 0; }
+            }
+            if ((sel & 16) && a_que_at(q, (a_diff)N)) { LFAIL("at-out-of-range", "queue %d holding %zu: at(num) is not null", k, N); return 0; }
+            if ((sel & 32) && a_que_at(q, -(a_diff)N - 1)) { LFAIL("at-out-of-range", "queue %d holding %zu: at(-num-1) is not null", k, N); return 0; }
+        }
+        /* the recycling pool: what it will hand out next must not be enqueued anywhere, and no node twice */
+        {
+            size_t cur = q->cur_, valid = m->low < m->shn ? m->low : m->shn;
+            if (valid > cur) { valid = cur; }
+            if (valid && memcmp(q->ptr_, m->shadow, valid * sizeof(a_list *)) != 0) { valid = 0; }
+            for (size_t i = valid; i < m->shn; ++i)
+            {
+                lg_ent *e = lg_find(m->shadow[i] + 1);
+                if (e->st == 2) { e->st = 0; }
+            }
+            if (cur > m->shcap)
+            {
+                m->shcap = cur + cur / 2 + 64;
+                m->shadow = (a_list **)realloc(m->shadow, m->shcap * sizeof(a_list *));
+                if (!m->shadow) { fprintf(stderr, "vf: out of memory (pool shadow)\n"); exit(2); }
+            }
+            for (size_t i = valid; i < cur; ++i)
+            {
+                lg_ent *e = lg_find(q->ptr_[i] + 1);
+                if (e->st == 1) { LFAIL("pooled-node-still-enqueued", "queue %d: pool slot %zu of %zu holds the node of an enqueued element", k, i, cur); m->shn = m->low = i; return 0; }
+                if (e->st == 2) { LFAIL("node-pooled-twice", "queue %d: pool slot %zu of %zu holds a node that is in a pool already", k, i, cur); m->shn = m->low = i; return 0; }
+                e->st = 2;
+                m->shadow[i] = q->ptr_[i];
+            }
+            m->shn = m->low = cur;
+        }
+        VF_ADD("large-que-pooled-nodes-checked", q->cur_);
+    }
+    ++vf.evals;
+    return ok;
+}
+
+/* how: 0 push_back, 1 push_fore, 2 insert(idx) */
+static int lq_push(int k, int how, size_t idx, uint32_t key)
+{
+    lqm *m = &LQ[k];
+    size_t n = m->s.n, pos;
+    void *p;
+    lg_ent *ent;
+    lge e;
+    int ok = 1;
+    if (how == 0) { opname = "push_back"; vf_log("que %d push_back (num %zu)", k, n); p = a_que_push_back(m->q); pos = n; }
+    else if (how == 1) { opname = "push_fore"; vf_log("que %d push_fore (num %zu)", k, n); p = a_que_push_fore(m->q); pos = 0; }
+    else { opname = "insert"; vf_log("que %d insert idx=%zu (num %zu)", k, idx, n); p = a_que_insert(m->q, idx); pos = idx < n ? idx : n; }
+    lq_touch(m);
+    if (!p) { LFAIL("unexpected-null", "push returned null at num %zu", n); return 0; }
+    VF_COUNT("large-que-recycled-node-not-enqueued");
+    lg_reserve(1);
+    ent = lg_find(p);
+    if (ent->st == 1) { LFAIL("handed-out-node-still-enqueued", "push at num %zu returned %p which is the address of an enqueued element", n, p); return 0; }
+    ent->st = 1;
+    e.addr = p;
+    e.id = ++lq_serial;
+    e.key = key;
+    lq_bytes((unsigned char *)p, m->siz, e.id, e.key);
+    ls_insert(&m->s, pos, e);
+    return ok;
+}
+/* how: 0 pull_back, 1 pull_fore, 2 remove(idx) */
+static int lq_pull(int k, int how, size_t idx)
+{
+    lqm *m = &LQ[k];
+    size_t n = m->s.n, at;
+    void *p;
+    unsigned char exp[LQZMAX];
+    int ok = 1;
+    if (how == 0) { opname = "pull_back"; vf_log("que %d pull_back (num %zu)", k, n); p = a_que_pull_back(m->q); at = n ? n - 1 : 0; }
+    else if (how == 1) { opname = "pull_fore"; vf_log("que %d pull_fore (num %zu)", k, n); p = a_que_pull_fore(m->q); at = 0; }
+    else { opname = "remove"; vf_log("que %d remove idx=%zu (num %zu)", k, idx, n); p = a_que_remove(m->q, idx); at = idx < n ? idx : (n ? n - 1 : 0); }
+    lq_touch(m);
+    if (!n)
+    {
+        if (p) { LFAIL("non-null-from-empty", "returned %p", p); return 0; }
+        return ok;
+    }
+    VF_COUNT("large-que-pull-returns-the-element");
+    if (p != LS(&m->s, at).addr) { LFAIL("wrong-element-returned", "returned %p, element %zu of %zu lives at %p", p, at, n, LS(&m->s, at).addr); return 0; }
+    lq_bytes(exp, m->siz, LS(&m->s, at).id, LS(&m->s, at).key);
+    if (memcmp(p, exp, m->siz) != 0) { LFAIL("returned-element-not-intact", "payload of element %zu of %zu changed", at, n); return 0; }
+    lg_find(p)->st = 0;
+    ls_remove_n(&m->s, at, 1, NULL);
+    return ok;
+}
+static size_t lq_idx(vf_rng *r, size_t n, int *cls)
+{
+    switch ((int)vf_below(r, 5))
+    {
+    case 0: *cls = 7; return n;
+    case 1: *cls = 8; return n + 1;
+    case 2: *cls = 9; return SIZE_MAX;
+    default: return n ? lg_pos(r, n, cls) : 0;
+    }
+}
+/* the O(1) index classes of insert/remove (bulk phases): first, num, num+1, SIZE_MAX */
+static size_t lq_end_idx(vf_rng *r, size_t n)
+{
+    switch ((int)vf_below(r, 4))
+    {
+    case 0: return 0;
+    case 1: return n;
+    case 2: return n + 1;
+    default: return SIZE_MAX;
+    }
+}
+/* fill queue k up to `target` elements; checkpoints near powers of two, at pool exhaustion and at the target */
+static int lq_fill(int k, size_t target, vf_rng *r, char const *why)
+{
+    lqm *m = &LQ[k];
+    uint32_t mark;
+    int alive = 1, cls;
+    vf_log("large que %d: fill from %zu to %zu (%s; element size %zu, %zu pooled nodes)", k, m->s.n, target, why, m->siz, m->q->cur_);
+    mark = vf_log_mark();
+    while (m->s.n < target && alive)
+    {
+        size_t n = m->s.n, cur = m->q->cur_;
+        unsigned x = (unsigned)vf_below(r, 512);
+        vf_log_rewind(mark);
+        if (n && (x < 2 || (x < 24 && n < 3000))) { alive = lq_push(k, 2, lg_pos(r, n, &cls), lq_randkey(r, m->siz)); }
+        else if (x < 40) { alive = lq_push(k, 2, lq_end_idx(r, n), lq_randkey(r, m->siz)); }
+        else if (x < 140) { alive = lq_push(k, 1, 0, lq_randkey(r, m->siz)); }
+        else { alive = lq_push(k, 0, 0, lq_randkey(r, m->siz)); }
+        if (alive && (lg_near_pow2(n + 1) || n + 1 == target))
+        {
+            VF_COUNT("large-que-fill-checkpoints");
+            cell3("large-fill", lg_log2(n + 1), cur ? 1 : 0, (int)m->siz);
+            alive = lq_check(r);
+        }
+        else if (alive && cur && lg_near_pow2(cur - 1)) { alive = lq_check_(r, 0); }
+    }
+    vf_log_rewind(mark);
+    return alive;
+}
+/* drain queue k down to `target`; checkpoints near powers of two of the count and of the pool fill, and at every pool growth step */
+static int lq_drain(int k, size_t target, vf_rng *r)
+{
+    lqm *m = &LQ[k];
+    uint32_t mark;
+    int alive = 1, cls;
+    vf_log("large que %d: drain from %zu to %zu (element size %zu, %zu pooled nodes, pool capacity %zu)", k, m->s.n, target, m->siz, m->q->cur_, m->q->mem_);
+    mark = vf_log_mark();
+    while (m->s.n > target && alive)
+    {
+        size_t n = m->s.n, mem = m->q->mem_;
+        unsigned x = (unsigned)vf_below(r, 512);
+        vf_log_rewind(mark);
+        if (x < 2 || (x < 24 && n < 3000)) { alive = lq_pull(k, 2, lg_pos(r, n, &cls)); }
+        else if (x < 40) { alive = lq_pull(k, 2, lq_end_idx(r, n)); }
+        else if (x < 270) { alive = lq_pull(k, 1, 0); }
+        else { alive = lq_pull(k, 0, 0); }
+        if (alive && m->q->mem_ != mem) { VF_COUNT("large-que-pool-growth-steps-checked"); }
+        if (alive && (lg_near_pow2(n - 1) || n - 1 == target))
+        {
+            VF_COUNT("large-que-drain-checkpoints");
+            cell3("large-drain", lg_log2(n), lg_log2(m->q->cur_ + 1), (int)m->siz);
+            alive = lq_check(r);
+        }
+        else if (alive && (lg_near_pow2(m->q->cur_) || m->q->mem_ != mem)) { alive = lq_check_(r, 0); }
+    }
+    vf_log_rewind(mark);
+    return alive;
+}
+static void lq_forget(lqm *m)
+{
+    for (size_t i = 0; i < m->s.n; ++i) { lg_find(LS(&m->s, i).addr)->st = 0; }
+    ls_clear(&m->s);
+}
+static int lq_drop(int k, vf_rng *r)
+{
+    lqm *m = &LQ[k];
+    int rc, ok = 1;
+    opname = "drop";
+    vf_log("que %d drop (num %zu, %zu pooled nodes)", k, m->s.n, m->q->cur_);
+    rc = a_que_drop(m->q, vf_chance(r, 1, 2) ? lq_dtor : NULL);
+    if (rc != A_SUCCESS) { LFAIL("unexpected-error", "rc %d", rc); return 0; }
+    VF_COUNT("large-que-drop");
+    cell3("large-drop", lg_log2(m->s.n + 1), 0, 0);
+    lq_forget(m);
+    return ok && lq_check(r);
+}
+static int lq_setz(int k, size_t nz, vf_rng *r)
+{
+    lqm *m = &LQ[k];
+    int rc, ok = 1;
+    opname = "setz";
+    vf_log("que %d setz %zu (num %zu, size %zu, %zu pooled nodes)", k, nz, m->s.n, m->siz, m->q->cur_);
+    lq_pool_forget(m);
+    rc = a_que_setz(m->q, nz, vf_chance(r, 1, 2) ? lq_dtor : NULL);
+    if (rc != A_SUCCESS) { LFAIL("unexpected-error", "rc %d", rc); return 0; }
+    VF_COUNT("large-que-setz");
+    cell3("large-setz", lg_log2(m->s.n + 1), nz > m->siz, lg_log2(m->q->cur_ + 1));
+    lq_forget(m);
+    m->siz = nz ? nz : 1;
+    return ok && lq_check(r);
+}
+static void lq_swap_model(void)
+{
+    lqm t = LQ[0];
+    LQ[0] = LQ[1];
+    LQ[1] = t;
+    LQ[1].q = LQ[0].q; /* handles and their storage class stay */
+    LQ[1].by_ctor = LQ[0].by_ctor;
+    LQ[0].q = t.q;
+    LQ[0].by_ctor = t.by_ctor;
+}
+/* sorted insertion of `key` into the sorted queue k by variant 0 push_sort, 1 push_fore+sort_fore, 2 push_back+sort_back */
+static int lq_sorted_insert(int k, int variant, uint32_t key)
+{
+    lqm *m = &LQ[k];
+    lseq *s = &m->s;
+    size_t n = s->n, lo, hi, found = SIZE_MAX, a, b;
+    void *p;
+    lg_ent *ent;
+    lge e;
+    int ok = 1;
+    /* admissible positions: after every smaller key, before every larger key */
+    for (a = 0, b = n; a < b;) { size_t mid = a + (b - a) / 2; if (LS(s, mid).key < key) { a = mid + 1; } else { b = mid; } }
+    lo = a;
+    for (b = n; a < b;) { size_t mid = a + (b - a) / 2; if (LS(s, mid).key <= key) { a = mid + 1; } else { b = mid; } }
+    hi = a;
+    e.id = ++lq_serial;
+    e.key = key;
+    lq_bytes(lq_keybuf, m->siz, e.id, e.key);
+    lq_cmp_siz = m->siz;
+    if (variant == 0)
+    {
+        opname = "push_sort";
+        vf_log("que %d push_sort key %u (num %zu, admissible positions %zu..%zu)", k, key, n, lo, hi);
+        p = a_que_push_sort(m->q, lq_keybuf, lq_cmp);
+        if (p) { memcpy(p, lq_keybuf, m->siz); }
+    }
+    else if (variant == 1)
+    {
+        opname = "sort_fore";
+        vf_log("que %d push_fore key %u + sort_fore (num %zu, admissible positions %zu..%zu)", k, key, n, lo, hi);
+        p = a_que_push_fore(m->q);
+        if (p) { memcpy(p, lq_keybuf, m->siz); a_que_sort_fore(m->q, lq_cmp); }
+    }
+    else
+    {
+        opname = "sort_back";
+        vf_log("que %d push_back key %u + sort_back (num %zu, admissible positions %zu..%zu)", k, key, n, lo, hi);
+        p = a_que_push_back(m->q);
+        if (p) { memcpy(p, lq_keybuf, m->siz); a_que_sort_back(m->q, lq_cmp); }
+    }
+    lq_touch(m);
+    if (!p) { LFAIL("unexpected-null", "push returned null at num %zu", n); return 0; }
+    lg_reserve(1);
+    ent = lg_find(p);
+    if (ent->st == 1) { LFAIL("handed-out-node-still-enqueued", "push at num %zu returned the address of an enqueued element", n); return 0; }
+    ent->st = 1;
+    e.addr = p;
+    VF_COUNT("large-que-sorted-insert-position");
+    if (a_que_back(m->q) == p) { found = n; }
+    else if (a_que_fore(m->q) == p) { found = 0; }
+    else
+    {
+        a_list *h = &m->q->head_, *it;
+        size_t pos = 0;
+        for (it = h->next; it != h && pos <= n; it = it->next, ++pos)
+        {
+            if ((void *)(it + 1) == p) { found = pos; break; }
+        }
+    }
+    if (found == SIZE_MAX) { LFAIL("new-element-not-in-ring", "the pushed node is not linked into the queue (num %zu)", n); return 0; }
+    if (found < lo || found > hi) { LFAIL("not-sorted", "key %u placed at %zu of %zu, admissible positions %zu..%zu", key, found, n, lo, hi); return 0; }
+    ls_insert(s, found, e);
+    return ok;
+}
+/* `count` single operations at the present (large) size on either queue, the complete state compared after each */
+static int lq_edge_ops(int count, vf_rng *r)
+{
+    int alive = 1;
+    for (int i = 0; i < count && alive; ++i)
+    {
+        int op = (int)vf_below(r, 12), k = vf_chance(r, 1, 4) ? 1 : 0, cls = 0, ok = 1;
+        lqm *m = &LQ[k];
+        size_t n = m->s.n, idx;
+        switch (op)
+        {
+        case 0: case 1: case 2:
+            idx = lq_idx(r, n, &cls);
+            alive = lq_push(k, 2, idx, lq_randkey(r, m->siz));
+            cell3("large-insert", cls, lg_log2(n + 1), (int)m->siz);
+            break;
+        case 3: case 4: case 5:
+            idx = lq_idx(r, n, &cls);
+            alive = lq_pull(k, 2, idx);
+            cell3("large-remove", cls, lg_log2(n + 1), (int)m->siz);
+            break;
+        case 6: alive = lq_push(k, op & 1, 0, lq_randkey(r, m->siz)); break;
+        case 7: alive = lq_push(k, op & 1, 0, lq_randkey(r, m->siz)); break;
+        case 8: alive = lq_pull(k, 0, 0); break;
+        case 9: alive = lq_pull(k, 1, 0); break;
+        case 10:
+        {
+            int k2 = vf_chance(r, 1, 3) ? 1 - k : k;
+            lqm *m2 = &LQ[k2];
+            size_t p1, p2;
+            a_list *x, *y;
+            if (!n || !m2->s.n || m->siz != m2->siz) { break; }
+            p1 = lg_pos(r, n, &cls);
+            p2 = lg_pos(r, m2->s.n, &cls);
+            x = (a_list *)LS(&m->s, p1).addr - 1;
+            y = (a_list *)LS(&m2->s, p2).addr - 1;
+            if (x == y || x->next == y || y->next == x) { VF_COUNT("swap-skipped-adjacent"); break; }
+            opname = "swap_";
+            vf_log("que swap_(element %zu of queue %d holding %zu, element %zu of queue %d holding %zu)", p1, k, n, p2, k2, m2->s.n);
+            a_que_swap_(LS(&m->s, p1).addr, LS(&m2->s, p2).addr);
+            {
+                lge t = LS(&m->s, p1);
+                LS(&m->s, p1) = LS(&m2->s, p2);
+                LS(&m2->s, p2) = t;
+            }
+            VF_COUNT("large-que-element-swap");
+            cell3("large-swap_", k == k2, posc(p1, n), posc(p2, m2->s.n));
+            break;
+        }
+        default:
+        {
+            size_t j = 0;
+            opname = "foreach";
+            vf_log("que %d foreach / foreach_reverse (num %zu)", k, n);
+            VF_COUNT("large-que-foreach-macros");
+            a_que_foreach(unsigned char, *, it, m->q)
+            {
+                if (j >= n || (void *)it != LS(&m->s, j).addr) { LFAIL("foreach", "position %zu of %zu", j, n); break; }
+                ++j;
+            }
+            if (ok && j != n) { LFAIL("foreach", "visited %zu of %zu", j, n); }
+            j = 0;
+            a_que_foreach_reverse(unsigned char, *, it, m->q)
+            {
+                if (j >= n || (void *)it != LS(&m->s, n - 1 - j).addr) { LFAIL("foreach_reverse", "position %zu of %zu", j, n); break; }
+                ++j;
+            }
+            if (ok && j != n) { LFAIL("foreach_reverse", "visited %zu of %zu", j, n); }
+            if (!ok) { alive = 0; }
+            break;
+        }
+        }
+        if (alive)
+        {
+            VF_COUNT("large-que-single-ops-at-size-judged");
+            alive = lq_check(r);
+        }
+    }
+    return alive;
+}
+
+/* deterministic sweep at the present size of queue k: insert at, then remove at, every index 2^j-1, 2^j, 2^j+1 for the three
+ * largest powers of two <= num, and num-1, num (complete comparison after each call) */
+static int lq_boundary_sweep(int k, vf_rng *r)
+{
+    lqm *m = &LQ[k];
+    int alive = 1, top = lg_log2(m->s.n ? m->s.n : 1);
+    size_t idx[11];
+    int ni = 0;
+    for (int j = top; j >= 1 && j > top - 3; --j)
+    {
+        for (int d = -1; d <= 1; ++d) { idx[ni++] = ((size_t)1 << j) + (size_t)d; }
+    }
+    idx[ni++] = m->s.n ? m->s.n - 1 : 0;
+    idx[ni++] = m->s.n;
+    vf_log("large que %d: boundary sweep of insert(idx) / remove(idx) at num %zu", k, m->s.n);
+    for (int i = 0; i < ni && alive; ++i)
+    {
+        alive = lq_push(k, 2, idx[i], lq_randkey(r, m->siz)) && lq_check(r);
+        if (alive) { alive = lq_pull(k, 2, idx[i]) && lq_check(r); }
+        VF_ADD("large-que-boundary-sweep-ops", 2);
+        cell3("large-sweep", i, lg_log2(m->s.n + 1), 0);
+    }
+    return alive;
+}
+
+static void que_large(uint64_t c, uint64_t L, vf_rng *r, size_t N)
+{
+    static size_t const zs[] = {1, 3, 4, 8, 24, 64};
+    size_t siz = zs[vf_below(r, 6)], maxn = N + N / 8 + 64;
+    int alive, big = 0;
+    fam = "que";
+    cmp_pick_style(r);
+    lq_serial = 0;
+    lg_tab = NULL;
+    lg_tabcap = lg_tabused = 0;
+    lg_reserve(N);
+    for (int k = 0; k < 2; ++k)
+    {
+        if ((L >> 1 ^ (uint64_t)k) & 1)
+        {
+            LQ[k].q = (a_que *)malloc(sizeof(a_que));
+            memset(LQ[k].q, 0x5A, sizeof(a_que));
+            a_que_ctor(LQ[k].q, siz);
+            LQ[k].by_ctor = 1;
+        }
+        else
+        {
+            LQ[k].q = a_que_new(siz);
+            LQ[k].by_ctor = 0;
+        }
+        LQ[k].siz = siz;
+        LQ[k].shadow = NULL;
+        LQ[k].shn = LQ[k].shcap = LQ[k].low = 0;
+        ls_init(&LQ[k].s, 2 * maxn + 64);
+    }
+    if (vf_want_sample())
+    {
+        vf_sample("large queue history %" PRIu64 ": element size %zu, filled to %zu elements (push_back/push_fore/insert; every ring node, payload byte, element address, num, fore/back/at(+-i) and the recycling pool compared at every n within 2 of a power of two), single insert/remove at indices {0, 2^k+-1, n-1, n, n+1, SIZE_MAX}, element swap, fill/drain cycles through the node pool (checkpoints at every pool growth step), whole-queue swap with a small queue, drop + refill, setz to another element size + refill past the pool, long sorted queue with push_sort/sort_fore/sort_back of keys below/inside/above", c, siz, N);
+    }
+    /* 1. first fill, then single operations at that size */
+    alive = lq_fill(0, N, r, "first fill: every node freshly allocated");
+    if (alive) { alive = lq_boundary_sweep(0, r); }
+    if (alive) { alive = lq_edge_ops(8 + (int)vf_below(r, 8), r); }
+    /* 2. fill/drain cycles through the recycling pool */
+    for (int cyc = 0, ncyc = 1 + (int)vf_below(r, 3); cyc < ncyc && alive; ++cyc)
+    {
+        size_t n = LQ[0].s.n, lo, hi, amp = ((size_t)1 << vf_below(r, (uint64_t)lg_log2(n + 2) + 1)) + (size_t)vf_below(r, 3);
+        switch ((int)vf_below(r, cyc ? 5 : 3))
+        {
+        case 0: lo = 0; break;
+        case 1: lo = vf_chance(r, 1, 2) ? 1 : n / 3; break;
+        default: lo = amp < n ? n - amp : 0; break;
+        }
+        alive = lq_drain(0, lo, r);
+        if (!alive) { break; }
+        switch ((int)vf_below(r, 4))
+        {
+        case 0: hi = N + 1; break;
+        case 1: hi = N + N / 8; break;
+        case 2: hi = lo + amp + 1; break;
+        default: hi = N; break;
+        }
+        if (hi > maxn - 32) { hi = maxn - 32; }
+        alive = lq_fill(0, hi, r, "refill: pooled nodes first, fresh ones once the pool is empty");
+        VF_COUNT("large-que-fill-drain-cycles");
+    }
+    /* 3. whole-queue swap of the large queue with a small (sometimes also large) one, traffic on both */
+    if (alive)
+    {
+        static size_t const small[] = {0, 1, 2, 5, 33};
+        size_t n1 = vf_chance(r, 1, 6) ? N / 2 + 1 : small[vf_below(r, 5)];
+        alive = lq_fill(1, n1, r, "the other queue");
+        for (int rep = 0, nrep = 1 + (int)vf_below(r, 2); rep < nrep && alive; ++rep)
+        {
+            int ok = 1;
+            opname = "swap";
+            vf_log("que a_que_swap (num %zu / %zu)", LQ[0].s.n, LQ[1].s.n);
+            a_que_swap(LQ[0].q, LQ[1].q);
+            lq_swap_model();
+            VF_COUNT("large-que-whole-swap");
+            cell3("large-swap", lg_log2(LQ[0].s.n + 1), lg_log2(LQ[1].s.n + 1), 0);
+            (void)ok;
+            alive = lq_check(r) && lq_edge_ops(4 + (int)vf_below(r, 4), r);
+        }
+        big = LQ[1].s.n > LQ[0].s.n;
+    }
+    /* 4. drop everything into the pool, refill out of it */
+    if (alive) { alive = lq_drop(big, r); }
+    if (alive) { alive = lq_fill(big, N / 2 + (size_t)vf_below(r, N / 2 + 1), r, "refill after drop: every node comes out of the pool"); }
+    /* 5. element-size change after heavy use: pooled nodes are re-allocated, then a refill past the pool */
+    if (alive) { alive = lq_drain(big, LQ[big].s.n - LQ[big].s.n / (1 + (size_t)vf_below(r, 4)), r); }
+    if (alive)
+    {
+        size_t nz = zs[vf_below(r, 6)];
+        if (nz == LQ[big].siz) { nz = zs[(vf_below(r, 5) + 1) % 6]; }
+        if (vf_chance(r, 1, 8)) { nz = 0; }
+        alive = lq_setz(big, nz, r);
+    }
+    if (alive) { alive = lq_fill(big, N + (size_t)vf_below(r, N / 8 + 2), r, "refill after setz: re-allocated pooled nodes first, then fresh ones; every byte of the new element size is written"); }
+    if (alive) { alive = lq_edge_ops(4 + (int)vf_below(r, 4), r); }
+    /* 6. a long sorted queue: sorted insertion of keys below all, above all, equal to runs, in between */
+    if (alive) { alive = lq_drop(big, r); }
+    if (alive)
+    {
+        lqm *m = &LQ[big];
+        size_t run = (size_t[]){1, 3, 64}[vf_below(r, 3)];
+        uint32_t kmax = 0, mark;
+        int nsort = 10 + (int)vf_below(r, 8);
+        lq_keybuf = (unsigned char *)malloc(m->siz);
+        vf_log("large que %d: build a sorted queue of %zu elements (element size %zu, runs of %zu equal keys) by push_back / push_sort / push_back+sort_back of ascending keys", big, N, m->siz, run);
+        mark = vf_log_mark();
+        while (m->s.n < N && alive)
+        {
+            size_t i = m->s.n;
+            uint32_t key = m->siz >= 4 ? (uint32_t)(10 + 2 * (i / run)) : (uint32_t)(1 + i * 254 / N);
+            unsigned x = (unsigned)vf_below(r, 8);
+            vf_log_rewind(mark);
+            kmax = key;
+            if (x < 5) { alive = lq_push(big, 0, 0, key); }
+            else { alive = lq_sorted_insert(big, x == 7 ? 2 : 0, key); }
+            if (alive && (lg_near_pow2(i + 1) || i + 1 == N))
+            {
+                VF_COUNT("large-que-sorted-build-checkpoints");
+                alive = lq_check(r);
+            }
+        }
+        vf_log_rewind(mark);
+        for (int i = 0; i < nsort && alive; ++i)
+        {
+            int kc = (int)vf_below(r, 6), variant = (int)vf_below(r, 3);
+            uint32_t key;
+            if (m->siz >= 4)
+            {
+                uint32_t j = (uint32_t)vf_below(r, (kmax - 10) / 2 + 1);
+                key = kc == 0 ? 0 : kc == 1 ? kmax + 5 : kc == 2 ? 10 : kc == 3 ? kmax : kc == 4 ? 10 + 2 * j : 11 + 2 * j;
+            }
+            else { key = kc == 0 ? 0 : kc == 1 ? 255 : kc == 2 ? 1 : kc == 3 ? kmax : (uint32_t)vf_range(r, 1, 254); }
+            alive = lq_sorted_insert(big, variant, key);
+            cell3(variant == 0 ? "large-push_sort" : variant == 1 ? "large-sort_fore" : "large-sort_back", kc, lg_log2(m->s.n), 0);
+            if (alive)
+            {
+                VF_COUNT("large-que-sorted-inserts-judged");
+                alive = lq_check(r);
+            }
+        }
+        free(lq_keybuf);
+        lq_keybuf = NULL;
+    }
+    if (alive)
+    {
+        opname = "die";
+        vf_log("que die both (num %zu / %zu)", LQ[0].s.n, LQ[1].s.n);
+        for (int k = 0; k < 2; ++k)
+        {
+            if (LQ[k].by_ctor) { a_que_dtor(LQ[k].q, k ? lq_dtor : NULL); free(LQ[k].q); }
+            else { a_que_die(LQ[k].q, k ? lq_dtor : NULL); }
+        }
+        VF_COUNT("large-que-destroyed");
+    }
+    for (int k = 0; k < 2; ++k)
+    {
+        ls_free(&LQ[k].s);
+        free(LQ[k].shadow);
+    }
+    free(lg_tab);
+    lg_tab = NULL;
+}
+
+/* Large case number L (= case / 41 quick, case / 1201 thorough; the worker index is L mod the worker count), round = L / 48:
+ * j = (L % 48 + 13 * round) % 48 (so the expensive combinations wander over the workers from round to round),
+ * family = j / 12 (0 queue A, 1 list, 2 queue B, 3 slist), size slot = j % 12 (lg_target).
+ * Bounds. list/slist: every slot at face value in both tiers (up to 65537 nodes; odd rounds of thorough up to 131073 and
+ * random sizes up to 200000). queue: a case of n >= 32767 elements costs about 2 s under ASan, therefore queue A runs the
+ * slots at face value in round 0 of quick (one case each of 65535, 65536, 65537, 32767 and a random size in 40000..70000
+ * per quick run) and in every round of thorough; queue A in the later quick rounds and queue B everywhere divide the
+ * sizes >= 32767 by 8 (quick) / 4 (thorough). */
+static void large_case(uint64_t L, uint64_t c, vf_rng *r)
+{
+    uint64_t round = L / 48;
+    unsigned j = (unsigned)((L % 48 + 13 * round) % 48), fam_ = j / 12, slot = j % 12;
+    int big = vf.tier && (round & 1);
+    size_t N = lg_target(slot, big, r);
+    VF_COUNT("large-cases");
+    switch (fam_)
+    {
+    case 1:
+        if (N >= 65537) { VF_COUNT("large-list-cases-reaching-65537"); }
+        list_large(c, r, N);
+        break;
+    case 3:
+        if (N >= 65537) { VF_COUNT("large-slist-cases-reaching-65537"); }
+        slist_large(c, r, N);
+        break;
+    default:
+        if (N >= 32767 && (fam_ == 2 || (!vf.tier && round > 0))) { N = N / (vf.tier ? 4 : 8) + (size_t)vf_below(r, 3); }
+        if (N >= 65537) { VF_COUNT("large-que-cases-reaching-65537"); }
+        que_large(c, L, r, N);
+        break;
+    }
+}
+
+#define LG_MOD_QUICK 41
+#define LG_MOD_THOROUGH 1201
 static uint64_t vf_ncases(int tier) { return tier ? 1200000 : 6000; }
 static void vf_case(uint64_t c, vf_rng *r)
 {
+    uint64_t const mod = vf.tier ? LG_MOD_THOROUGH : LG_MOD_QUICK;
+    if (c % mod == mod - 1)
+    {
+        large_case(c / mod, c, r);
+        return;
+    }
     switch (c % 3)
     {
     case 0: list_case(c, r); break;
